@@ -74,6 +74,8 @@ def run(repo, rep):
     from . import c14
 
     rep.run_borrowed(c14, {"C14-a": "C05-i"}, repo, only_sites=("hillclimb_allocation", "greedy_allocation", "tensor_allocation", "live_range"))
+    rep.clause("C05-m", "Greedy: every address handed out was chosen by the gap scan over the live allocations (no return before the scan, set_address takes the scan's variable)")
+    rule_round11(repo, rep)
     rule_round10(repo, rep)
     rule_round9(repo, rep)
     rule_round5(repo, rep)
@@ -766,3 +768,25 @@ def rule_round10(repo, rep):
                       "advancing the running total: later ranges are laid out from 0 over it and the reported total falls short)")
     if n < 2:
         raise AnalysisError(f"linear_allocate_live_ranges: {n} address reads found")
+
+
+def rule_round11(repo, rep):
+    """(m) every address the Greedy allocator hands out has been checked against the ranges that are live: alloc() reaches its one
+    set_address call only through the scan of `current_allocs` (no return before the scan), and the address it sets is the variable the
+    scan assigns (initialised to the aligned top). A remembered address of a released block is not such a value: the hole it named may have
+    been partly taken since."""
+    gm = repo.mod("greedy_allocation")
+    fn = gm.func("GreedyAllocator.alloc")
+    site = "ethosu/vela/greedy_allocation.py:GreedyAllocator.alloc"
+    scans = [lp for lp in ast.walk(fn) if isinstance(lp, ast.For) and str(norm(lp.iter)) == "self.current_allocs"]
+    sets = [c for c in ast.walk(fn) if isinstance(c, ast.Call) and isinstance(c.func, ast.Attribute) and c.func.attr == "set_address"]
+    if len(scans) != 1 or not sets:
+        raise AnalysisError(f"GreedyAllocator.alloc: {len(scans)} scans of current_allocs, {len(sets)} set_address calls")
+    scan = scans[0]
+    early = [r for r in ast.walk(fn) if isinstance(r, ast.Return) and r.lineno < scan.lineno]
+    rep.check(not early, "C05-m", site, "no return precedes the gap scan: every placement goes through it", f"a return at line offset {early[0].lineno - fn.lineno if early else 0} leaves before the scan: the address set on that path was never compared with the live ranges")
+    scan_vars = {str(norm(t)) for st in ast.walk(scan) if isinstance(st, ast.Assign) for t in st.targets}
+    for c in sets:
+        arg = str(norm(c.args[0])) if c.args else ""
+        rep.check(arg in scan_vars and c.lineno > scan.lineno, "C05-m", site, f"`{str(norm(c))[:60]}` sets the offset chosen by the gap scan",
+                  f"`{arg}` is not assigned by the scan of the live allocations (or is set before it): a remembered address of a released block is reused although a later range may have taken part of that hole - two live ranges overlap")
